@@ -6,6 +6,13 @@ pub(crate) fn vk_format(_a: core::fmt::Arguments<'_>) -> String {
   String::new()
 }
 
+// Instant::now() calls clock_gettime, which Kani cannot model: a fixed instant stands in (Kani runs only)
+#[cfg(kani)]
+#[allow(dead_code)]
+pub(crate) fn vk_fixed_now() -> std::time::Instant {
+  unsafe { core::mem::transmute::<[u64; 2], std::time::Instant>([5, 7]) }
+}
+
 #[cfg(kani)]
 #[allow(dead_code)]
 pub(crate) fn vk_any<T: kani::Arbitrary>() -> T {
